@@ -28,4 +28,23 @@ def deltaPairs (rs : List (Nat × Rat)) : List (Nat × Rat) := rs.map (fun p => 
 
 def delta (rs : List (Nat × Rat)) : List Rat := (deltaPairs rs).map Prod.snd
 
+/-! ### `np.interp` as the stratum distributions use it (`_estimate_strata_dist`: `ppf_creator`, `cdf_creator`)
+
+`interp x left right pts` = `np.interp(x, xp, fp, left, right)` for points `(xp, fp)` with increasing `xp`: `left` before the first knot,
+`right` after the last, the knot's value at a knot, the chord in between.  (numpy rejects an empty point list; here it gives `right`,
+and every theorem is about the values, not about that case.) -/
+
+def interpAux (x right : Rat) : List (Rat × Rat) → Rat
+  | [] => right
+  | (x0, f0) :: rest =>
+    if x ≤ x0 then f0 else
+    match rest with
+    | [] => right
+    | (x1, f1) :: _ => if x < x1 then f0 + (f1 - f0) * (x - x0) / (x1 - x0) else interpAux x right rest
+
+def interp (x left right : Rat) (pts : List (Rat × Rat)) : Rat :=
+  match pts with
+  | [] => right
+  | (x0, _) :: _ => if x < x0 then left else interpAux x right pts
+
 end ElexModel.BootErr
